@@ -499,6 +499,6 @@ def run(ctx):
         rule_MEMEQ(ctx),
         sC19.rule_same(ctx),
         sC19.rule_cmpiv(ctx),
-        # sC19.rule_cmplen(ctx),        # pending finding (FINDING_1: bytearray() < bytearray() is True)
+        sC19.rule_cmplen(ctx),          # guards the repaired ordering of two empty bytes/bytearray operands (f97d24a71)
         # sC19.rule_cmpiv_llp64(ctx),   # pending finding (FINDING_2: 32-bit long fallback of CompareFloatInt)
     ]
